@@ -197,6 +197,10 @@ def plan_C08(tier, seed, q):
             for mode in (0, 1, 2):
                 ex = {"side": side, "hdr": hdr, "mode": mode, "full": not q, "bursts": (250 if q else 4000) if side == "server" else 0}
                 jobs.append(Job("rt", "hostile", {"prop": "C08", "tier": tier, "seed": seed, "extra": ex}, timeout=1500 if q else 3300))
+    for hdr in (("default", "code") if q else ("default", "pb", "code", "json")):
+        for mode in ((0, 1) if q else (0, 1, 2)):
+            ex = {"side": "server", "hdr": hdr, "mode": mode, "full": False, "bursts": 150 if q else 2000, "poll": True}
+            jobs.append(Job("rt", "hostile", {"prop": "C08", "tier": tier, "seed": seed, "extra": ex}, timeout=1500 if q else 3300))
     if not q:
         for side in ("server", "client"):
             for hdr in ("default", "code"):
@@ -210,11 +214,11 @@ def plan_C08(tier, seed, q):
                     "at every position (thorough: all 255 other values for frames <= 64 B), seeded random frames and multi-byte mutations, and bursts "
                     "of 1..64 well-formed requests followed at once by EOF/reset; each worker process logs an input before delivering it, the supervisor "
                     "restarts it behind an input that kills it; probes on the same and on another connection must still be served; distinct = distinct "
-                    "(side, header, mode, family, corpus frame | upgrade byte)",
+                    "(side, header, mode, family, corpus frame | upgrade byte); poll-mode servers get the same families over raw loopback TCP",
             "jobs": jobs, "min_evaluations": 20000, "min_distinct": 200, "parallel": 12,
             "assumptions": ["frames are delivered through socket.Messages (never raw stream garbage below the frame layer, whose length-prefix parser belongs to hslam/socket)",
                             "handlers of the harness are total; corrupted harness payload headers are clamped so that a corrupted delay/size field cannot stall the worker",
-                            "poll-mode servers are exercised by the real-network engines, not here"]}
+                            "poll-mode (netpoll) servers receive the same frame families over raw loopback TCP connections (frames written with their length prefix)"]}
 
 
 def pool_jobs(prop, tier, seed, classes, shards=6, kind="vt", timeout=1500):
